@@ -1927,7 +1927,10 @@ def wf_programs(rng, tier):
             opts["bias"] = {rng.choice(["nested", "conditional", "tail_loop", "cfg", "call", "order", "load"]): 5}
         prog = gen_prog.gen_wf_program(random.Random(rng.randrange(2**31)), rng.randint(3, 30), opts)
         for w in range(sum(1 for c in prog if c[0] == "to_json")):
-            yield {"kind": "program", "prog": prog, "family": fam or "mixed", "which": w}
+            sp = {"kind": "program", "prog": prog, "family": fam or "mixed", "which": w}
+            if rng.random() < 0.3:
+                sp["probe"] = rng.randrange(len(prog))
+            yield sp
     for i in range(n_circ):
         prog = gen_prog.gen_tracked_circuit(
             random.Random(rng.randrange(2**31)), rng.randint(1, 5), rng.randint(1, 12), {"bad": 0.0}
@@ -1936,16 +1939,34 @@ def wf_programs(rng, tier):
             yield {"kind": "program", "prog": prog, "family": "tracked-circuit", "which": w}
 
 
-def _build_program(prog, which=0):
-    """Run the program on the real builders; the HUGR of its `which`-th `to_json` command."""
+def _build_program(prog, which=0, probe=None):
+    """Run the program on the real builders; the HUGR of its `which`-th `to_json` command.  Before command
+    number `probe` the observers (to_json, to_model, render_dot) are run once on every HUGR under construction
+    and their results thrown away."""
     import progs
 
-    r = progs.run_program([c for c in prog])
-    for o in r["outcomes"]:
-        if o[0] == "err":
-            raise type(str(o[1]), (Exception,), {})("raised by a builder call of the program")
+    env, docs = progs.Env(), []
+    for i, c in enumerate(prog):
+        if probe == i:
+            seen = set()
+            for b in list(env.b.values()):
+                h = getattr(b, "hugr", None)
+                if h is None or id(h) in seen:
+                    continue
+                seen.add(id(h))
+                for f in (h.to_json, h.to_model, lambda h=h: h.render_dot().source):
+                    try:
+                        f()
+                    except Exception:  # noqa: BLE001
+                        pass
+        try:
+            progs.exec_cmd(env, c, docs)
+        except progs.ProgError:
+            raise
+        except Exception as e:  # noqa: BLE001
+            raise type(progs.exc_name(e), (Exception,), {})("raised by a builder call of the program") from None
     tj = [c for c in prog if c[0] == "to_json"]
-    return r["env"].builder(tj[which][1]).hugr
+    return env.builder(tj[which][1]).hugr
 
 
 def shrink_program(spec, pred):
@@ -1984,7 +2005,7 @@ def build_hugr(spec):
     if k == "neg_script":
         return NEG_SCRIPTS[spec["name"]][0](random.Random(spec["seed"]))
     if k == "program":
-        return _build_program(spec["prog"], spec.get("which", 0))
+        return _build_program(spec["prog"], spec.get("which", 0), spec.get("probe"))
     raise KeyError(k)
 
 
